@@ -230,12 +230,14 @@ void harness(void) {
  * addRequest: "a submission is refused with 'cache full' exactly when ...; never lost, duplicated" */
 #ifdef H_add_request
 void harness(void) {
-	KSI_AsyncHandle nh; int res; bool hasReq = nondet_bool(), hasCnf = nondet_bool(); size_t k, occ0, ref0; int conf_before, cached_then_failed;
+	KSI_AsyncHandle nh; int res; bool hasReq = nondet_bool(), hasCnf = nondet_bool(); size_t k, occ0, ref0; int conf_before, cached_then_failed; bool had_resp;
 	if (!mk_client()) return;
 	g_c.clientImpl = &g_ctx; g_c.addRequest = ar_impl_add; g_c.getCredentials = ar_impl_cred;
 	mk_handle(&nh);
 	nh.state = KSI_ASYNC_STATE_WAITING_FOR_DISPATCH;     /* set by KSI_Async*Handle_new */
-	nh.respCtx = NULL; nh.respCtx_free = NULL; nh.errMsg = NULL; nh.raw = NULL;
+	/* the handle may be one that completed an earlier round (added again): it then still carries that round's response */
+	nh.respCtx = nondet_bool() ? (void *)&g_ctx : NULL; nh.respCtx_free = nh.respCtx != NULL ? as_resp_free : NULL; nh.errMsg = NULL; nh.raw = NULL;
+	had_resp = nh.respCtx != NULL;
 	ar_init();
 	__CPROVER_assume(ainv_inv(&g_c));
 	__CPROVER_assume(nh.ref >= 1 && nh.ref < 1000);
@@ -253,6 +255,7 @@ void harness(void) {
 			g_ar_reqid_set == nh.id && g_ar_transport_adds == 1 && nh.ref == ref0 + 1),
 			"addRequest: accepted -> the handle sits in exactly one previously empty slot, its id names that slot and is the id sent on the wire, one copy given to the transport");
 	__CPROVER_assert(IMPLIES(res == KSI_OK && !hasReq, k == 0), "addRequest: a configuration-only request takes no slot");
+	__CPROVER_assert(IMPLIES(res == KSI_OK, nh.respCtx == NULL && nh.respCtx_free == NULL), "addRequest: an accepted handle carries no response of an earlier round (a re-added handle can never be completed with a stale reply)");
 	__CPROVER_assert(IMPLIES(res == KSI_OK && !conf_before, g_c.pending == c0.pending + (hasReq ? 1 : 0) + (hasCnf ? 1 : 0) && g_c.received == c0.received),
 			"addRequest: accepted -> pending grows by one per accepted handle");
 	__CPROVER_assert(IMPLIES(res == KSI_OK && !(hasCnf && conf_before), ainv_inv(&g_c)), "addRequest: accepted -> Inv(c) holds (no configuration handle replaced)");
